@@ -686,7 +686,7 @@ pub fn owned_prefixes(prop: &str) -> &'static [&'static str] {
         "C13" => &["time/", "ledger/leak", "ledger/double-drop", "ledger/option", "ledger/failed-send-delivered", "life/", "hang/"],
         "C14" => &["nonblock/", "ledger/failed-send-delivered", "ledger/lost", "ledger/option", "explain/none"],
         "C15" => &["ledger/", "life/", "order/", "hang/"],
-        "C16" => &["poll/", "stream/", "hang/", "ledger/dup-receive", "ledger/invented", "order/", "panic/undocumented"],
+        "C16" => &["poll/", "stream/", "hang/", "ledger/dup-receive", "ledger/invented", "ledger/lost", "order/", "panic/undocumented"],
         "C19" => &["drain/", "order/", "nonblock/", "ledger/failed-send-delivered", "ledger/dup-receive"],
         _ => &[],
     }
